@@ -6,10 +6,11 @@ that never purges, whenever every operation reaches every replica within less th
 period): decided on Cluster.tla with global time, bounded clock skew, Purge enabled at any moment and the
 timeliness guard, exhaustively for a small config and by simulation + real-node replay beyond."""
 import vlib
-from checks import actor_traces, cluster_model, orswot_ops
+from checks import actor_traces, cluster_model, orswot_merge, orswot_ops
 
 ASSUMPTIONS = [
-    "local clauses: every reachable set of the bounded universes in coverage.configs; purge enabled in every state",
+    "local clauses: every reachable set of the bounded universes in coverage.configs; purge enabled in every state; sets reached through "
+    "merge and repair as well (MC_OrswotMerge with purge on any replica at any moment, coverage.merge_graph)",
     "'not newer than the purged delete' is probed for every stamp of the universe from the deleting node, on every key, "
     "through will_apply and both mutators on every source",
     "model time unit = 3600 s / F, the real FORGIVENESS_PERIOD (measured by behaviour: coverage.configs[].real_forgiveness_period_s)",
@@ -27,6 +28,13 @@ def run(ctx):
     cov = orswot_ops.judge(ctx, results, "C08", [
         ("effective_purges", "no purge edge removed a tombstone"),
         ("refused_probes", "no 'still refused' probe was evaluated")])
+    # the same local facts on sets reached through merges and repairs (purge enabled at any moment on any replica)
+    mres = orswot_merge.run_all(ctx, with_purge=True)
+    mcov = orswot_merge.judge(ctx, mres, "C08")
+    cov["states"] += mcov["states"]
+    cov["transitions"] += mcov["transitions"]
+    cov["traces_validated_against_impl"] += mcov["traces_validated_against_impl"]
+    cov["merge_graph"] = {"configs": mcov["configs"], "drift_edges": mcov["drift_edges"]}
     glob = cluster_model.run_all(ctx, "C08")
     gcov = cluster_model.judge(ctx, glob, {"C01", "C02", "C05", "C08"})
     purges = sum(r["rep"]["step_kinds"].get("purge", 0) for r in glob if r["kind"] == "simulated")
